@@ -1,7 +1,35 @@
-(* C13 placeholder - replaced when PipelineProofs.v is in place *)
+(* C13 - every expression rexpy returns is anchored, there are never more expressions than distinct
+   examples (none for an empty input), and tagging changes only the grouping. *)
 From Coq Require Import ZArith List Bool.
-From Tdda Require Import Base.Sexp Base.Str Rexpy.Chars Rexpy.Pipeline.
+From Tdda Require Import Base.Sexp Base.Str Rexpy.Chars Rexpy.Pipeline Rexpy.PipelineProofs.
 Import ListNotations.
-Theorem C13_capture_group_example : capture_group [40; 97; 41] = [40; 97; 41] /\ capture_group [97] = [40; 97; 41].
+Open Scope Z_scope.
+
+(* for every run of the model: each returned expression is ^...$; there are at most as many expressions as
+   stored (distinct) working examples; an input in which clean keeps nothing returns no expression *)
+Theorem C13_shape : forall ct o gt mt samples items lo,
+  run_extractor ct o gt mt samples items = Ok lo ->
+  Forall anchored (lo_rex lo) /\
+  (length (lo_rex lo) <= length (ex_strings (lo_examples lo)))%nat /\
+  (ex_strings (fst (clean ct o items)) = [] -> lo_rex lo = [] /\ lo_none lo = true).
+Proof. exact run_extractor_shape. Qed.
+Print Assumptions C13_shape.
+
+(* tagging: the fragments chosen by a batch extraction do not depend on the tag option ... *)
+Theorem C13_fragments_tag_independent : forall ct o e stripped gt ex t merged rex,
+  batch_extract ct o e stripped gt ex = Ok (merged, rex) ->
+  exists rex', batch_extract ct (with_tag o t) e stripped gt ex = Ok (merged, rex') \/
+               (exists err, mapM (vrle2re false e stripped t) merged = Err err).
+Proof. exact batch_fragments_tag_independent. Qed.
+Print Assumptions C13_fragments_tag_independent.
+
+(* ... and a tagged fragment is exactly the untagged one inside one pair of capturing parentheses
+   (constant fragments are never wrapped) *)
+Theorem C13_tag_only_wraps : forall out e f r,
+  fragment2re out e false f = Ok r ->
+  fragment2re out e true f = Ok (if f_fixed f then r else capture_group r).
+Proof. exact fragment_tag_only_wraps. Qed.
+Print Assumptions C13_tag_only_wraps.
+
+Example C13_capture_group_example : capture_group [40; 97; 41] = [40; 97; 41] /\ capture_group [97] = [40; 97; 41].
 Proof. split; reflexivity. Qed.
-Print Assumptions C13_capture_group_example.
